@@ -709,6 +709,9 @@ func (u *Unit) callFunc(ev *Ev, x *ast.CallExpr, f *types.Func, recv *Value) Val
 				ts = append(ts, a.T)
 			}
 			fn := u.declareFun(pureName(key, sorts), sorts, res[0].S)
+			if key == "errors.Is" && len(sorts) == 2 {
+				u.errorsIsAxioms(fn)
+			}
 			res[0] = scalar(app(fn, ts...), res[0].S, res[0].Typ)
 		}
 		if isErrorsNew(key) {
@@ -1347,6 +1350,18 @@ func (u *Unit) mathCall(ev *Ev, x *ast.CallExpr, f *types.Func) (Value, bool) {
 }
 
 // pureName: uninterpreted function symbol for a pure Go function; variadic functions get one symbol per argument shape.
+// errorsIsAxioms: what the standard library guarantees about errors.Is for all arguments (trusted):
+// Is(nil, t) holds only for t == nil, and Is(e, e) holds (comparable targets).
+func (u *Unit) errorsIsAxioms(fn string) {
+	if u.declared["ax:errors.Is"] {
+		return
+	}
+	u.declared["ax:errors.Is"] = true
+	u.axioms = append(u.axioms,
+		fmt.Sprintf("(forall ((t Ref)) (! (= (%s nil t) (= t nil)) :pattern ((%s nil t))))", fn, fn),
+		fmt.Sprintf("(forall ((e Ref)) (! (%s e e) :pattern ((%s e e))))", fn, fn))
+}
+
 func pureName(key string, sorts []Sort) string {
 	var sb strings.Builder
 	sb.WriteString("pure:" + key)
